@@ -10,12 +10,12 @@ PROPS = {"C09": "model_checking"}
 HARNESS = ["zz_verif_routing_test.go", "zz_verif_life_test.go", "zz_verif_gossip_test.go", "zz_verif_gossipreal_test.go"]
 PROFILES = {
     "quick": dict(design=[("g_fix2.cfg", 300), ("g_fix2s.cfg", 300), ("g_fix3.cfg", 300), ("g_leave_own.cfg", 300), ("g_join2.cfg", 300),
-                          ("g_join3.cfg", 300)],
+                          ("g_join3.cfg", 300), ("g_split2.cfg", 300)],
                   gen=[("sim_g2.cfg", ["a", "b"], 250, 18), ("sim_g.cfg", ["a", "b", "c"], 150, 24), ("sim_gj.cfg", ["a", "b"], 150, 18),
-                       ("sim_gj3.cfg", ["a", "b", "c"], 100, 24)], limit=1500),
+                       ("sim_gj3.cfg", ["a", "b", "c"], 100, 24), ("sim_gs.cfg", ["a", "b"], 150, 20)], limit=1500),
     "thorough": dict(design=[("g_fix2.cfg", 600), ("g_fix2s.cfg", 600), ("g_fix3.cfg", 600), ("g_fix2_t.cfg", 3000), ("g_fix3_t.cfg", 3000)],
                      gen=[("sim_g2.cfg", ["a", "b"], 3000, 18), ("sim_g.cfg", ["a", "b", "c"], 2500, 26), ("sim_gj.cfg", ["a", "b"], 1500, 18),
-                          ("sim_gj3.cfg", ["a", "b", "c"], 1500, 26)], limit=40000),
+                          ("sim_gj3.cfg", ["a", "b", "c"], 1500, 26), ("sim_gs.cfg", ["a", "b"], 1500, 20)], limit=40000),
 }
 OBS_RE = re.compile(r'<<(\d+), "(\w+)", (-?\d+), (-?\d+)>>')
 
